@@ -247,6 +247,32 @@ func gen(seed uint64, tier string, idx int) sim.CaseI {
 			mps = append(mps, m2)
 		}
 	}
+	// Shape "two majors over two majors": both major versions of one module are in the build, each
+	// imports the same package of another module without a major version, and their module files
+	// declare different default majors for it. What such an import means depends on the module
+	// file of the importing module *version*, not on its base path.
+	var twinB, twinD *mp
+	if len(mps) >= 2 && wr.Bool(0.1) {
+		var v0s []*mp
+		for _, m := range mps {
+			if strings.HasSuffix(m.path, "@v0") && !strings.HasSuffix(m.base, "/n") {
+				v0s = append(v0s, m)
+			}
+		}
+		if len(v0s) >= 2 {
+			k := wr.Perm(len(v0s))
+			twinB, twinD = v0s[k[0]], v0s[k[1]]
+			for _, m := range []*mp{twinB, twinD} {
+				has := false
+				for _, o := range mps {
+					has = has || o.path == m.base+"@v1"
+				}
+				if !has {
+					mps = append(mps, &mp{base: m.base, path: m.base + "@v1", vers: []string{"v1.0.0"}, dirs: m.dirs})
+				}
+			}
+		}
+	}
 	pickImport := func(exclude string) string {
 		if wr.Bool(0.08) {
 			return stdlib[wr.Intn(len(stdlib))]
@@ -284,6 +310,9 @@ func gen(seed uint64, tier string, idx int) sim.CaseI {
 			if len(mv.Pkgs) == 0 {
 				mv.Pkgs = append(mv.Pkgs, Pkg{Dir: m.dirs[0]})
 			}
+			if twinB != nil && m.base == twinB.base {
+				mv.Pkgs[0].Imports = append(mv.Pkgs[0].Imports, twinD.base+"/"+twinD.dirs[0])
+			}
 			// a published module lists the modules its imports need (at some version)
 			seen := map[string]bool{}
 			for _, p := range mv.Pkgs {
@@ -298,6 +327,21 @@ func gen(seed uint64, tier string, idx int) sim.CaseI {
 					}
 				}
 			}
+			if twinB != nil && m.base == twinB.base {
+				// exactly one default major of twinD per major of twinB
+				deps := mv.Deps[:0]
+				for _, d := range mv.Deps {
+					if !strings.HasPrefix(d.P, twinD.base+"@") {
+						deps = append(deps, d)
+					}
+				}
+				maj := m.path[strings.LastIndex(m.path, "@"):]
+				v := "v1.0.0"
+				if maj == "@v0" {
+					v = twinD.vers[wr.Intn(len(twinD.vers))]
+				}
+				mv.Deps = append(deps, Req{P: twinD.base + maj, V: v, Default: true})
+			}
 			c.Mods = append(c.Mods, mv)
 		}
 	}
@@ -310,6 +354,9 @@ func gen(seed uint64, tier string, idx int) sim.CaseI {
 		}
 		if dir != "" && wr.Bool(0.3) {
 			p.Imports = append(p.Imports, "main.test/sub@v0")
+		}
+		if twinB != nil && dir == "" {
+			p.Imports = append(p.Imports, twinB.base+"/"+twinB.dirs[0]+"@v0", twinB.base+"/"+twinB.dirs[0]+"@v1")
 		}
 		if wr.Bool(0.15) {
 			p.Ignore, p.Extra = true, pickImport("")
